@@ -1,4 +1,58 @@
-/- C15 — placeholder until the theorems are in; not claimed in MANIFEST.json while this comment stands. -/
-import ScpiVerif.Model.Result
+/-
+C15 — No formatting or copying API writes past the buffer the caller gave it.
+Property theorems only; helper lemmas in ScpiVerif/Lemmas/BufFmt.lean.
+`BufFmt.Buf` is a caller buffer of `len` cells with flags for a store outside the object (`oob`) and
+a read of a never-written cell (`uninit`).  The integer formatters are covered by C14
+(`toStr32_spec` / `toStr64_spec`: nothing at index >= len, NUL iff a byte remains), the quoted-text
+copy by `Props.C01.copyText_bound`.
+-/
+import ScpiVerif.Model.BufFmt
+import ScpiVerif.Lemmas.BufFmt
+
 namespace ScpiVerif.Props.C15
+open ScpiVerif ScpiVerif.Lexer ScpiVerif.BufFmt
+
+/-- a fresh caller buffer of `len` bytes -/
+abbrev fresh := Buf.fresh
+
+/-- SCPI_FloatToStr / SCPI_DoubleToStr, for every text the formatter produces (NUL-free) and every
+buffer length including 0 and 1: no store outside the buffer, no read of unwritten memory, the
+buffer holds the leading `len - 1` characters NUL-terminated (nothing at all for len = 0) and the
+return value is the length of what was written -/
+theorem doubleToStr_bounded (len : Nat) (text : Bytes) (ht : text.all (· ≠ 0) = true) :
+    let (b, r) := doubleToStr (fresh len) len text
+    b.oob = false ∧ b.uninit = false ∧ b.len = len ∧ r = min text.length (len - 1) ∧
+    (len > 0 → b.cstring = some (text.take (len - 1))) ∧ (len = 0 → b = fresh 0) :=
+  Lemmas.BufFmt.doubleToStr_bounded len text ht
+
+/-- the final copy of SCPI_dtostre (also used for nan / inf): never outside the buffer, always
+NUL-terminated when the buffer has room for anything -/
+theorem dtostreCopy_bounded (ssize : Nat) (text : Bytes) (ht : text.all (· ≠ 0) = true) :
+    let b := dtostreCopy (fresh ssize) ssize text
+    b.oob = false ∧ b.uninit = false ∧ (ssize > 0 → b.cstring = some (text.take (ssize - 1))) ∧ (ssize = 0 → b = fresh 0) :=
+  Lemmas.BufFmt.dtostreCopy_bounded ssize text ht
+
+/-- SCPI_NumberToStr, for every number text, every unit of the generated table, every special tag and
+every buffer length: no store outside the buffer, no read of unwritten memory, the result is a
+NUL-terminated prefix of the full text "<number> <unit>" (or of the special name) strictly shorter
+than the buffer, and the return value is its length -/
+theorem numberToStr_bounded (len : Nat) (special : Bool) (tag : Int) (numText : Bytes) (unit : Nat)
+    (ht : numText.all (· ≠ 0) = true) :
+    let (b, r) := numberToStr (fresh len) len special tag numText unit
+    let full : Bytes := if special then (specialName tag).getD [] else
+      (match unitName unit with | some u => numText ++ [32] ++ u | none => numText)
+    b.oob = false ∧ b.uninit = false ∧
+    (len = 0 → r = 0 ∧ b = fresh 0) ∧
+    (len > 0 → ∃ s, b.cstring = some s ∧ r = s.length ∧ s.length < len ∧ s = full.take s.length) :=
+  Lemmas.BufFmt.numberToStr_bounded len special tag numText unit ht
+
+/-- names in the generated tables contain no NUL (so they are C strings as the model assumes) -/
+theorem table_names_are_c_strings :
+    (∀ u ∈ Gen.unitsDef, u.1.toUTF8.toList.all (· ≠ 0) = true) ∧
+    (∀ p ∈ Gen.specialNumbersDef, p.1.toUTF8.toList.all (· ≠ 0) = true) :=
+  Lemmas.BufFmt.table_names_are_c_strings
+
+-- non-vacuity: the case the unrepaired code overflowed on (4219 OHM into 7 bytes)
+example : (numberToStr (fresh 7) 7 false 0 "4219".toUTF8.toList 3).1.oob = false := by decide +kernel
+
 end ScpiVerif.Props.C15
